@@ -77,7 +77,12 @@ def run(ctx):
     NS_PATH_TEXTS = ["x/a.b eq 1", "x/a.b/c.d eq x/e.f", "n.a/m.b/c eq 1", "x/ns.kids/any(k: k/m.v eq 1)", "f.g(x/a.b)", "x/a.eq eq 1", "x/a.add eq 1", "x/a.In eq 1",
                      "x/a.true eq 1", "x/a.FALSE eq 1", "x/a.null eq 1", "x/a.any eq 1", "x/a.all eq 1", "x/a.not eq 1", "x/a.1 eq 1", "x/a.1b eq 2", "a.true/b/c eq 1", "a.null/b eq 1",
                      "x/a.2020 eq 1", "x/y/a.true/z eq 1", "k/any(v: v/a.null eq 1)"]
-    for f in gens.VALID_FILTERS + gens.QUOTED_LITERAL_FILTERS + NS_PATH_TEXTS:
+    # identifiers spelled like OPERATOR keywords in every position an identifier can take: path root / segment, lambda owner and variable, parameter name, function name
+    OP_WORD_TEXTS = []
+    for w_ in "add sub mul div mod eq ne lt le gt ge in and or".split():
+        OP_WORD_TEXTS += [f"{w_}/id eq 1", f"{w_}/any()", f"items/any({w_}: {w_}/price gt 10)", f"ns.f({w_}=1)", f"x/{w_} eq 1", f"x/{w_}/y eq 1", f"ns.{w_}/a eq 1", f"f.{w_}(1)",
+                          f"({w_}) eq 1", f"x eq ({w_})", f"{w_}/all({w_}: {w_} eq {w_})"]
+    for f in gens.VALID_FILTERS + gens.QUOTED_LITERAL_FILTERS + NS_PATH_TEXTS + OP_WORD_TEXTS:
         try:
             nodes.append(impl.real_parse_ast(f))
         except Exception:  # noqa
